@@ -3,6 +3,9 @@ package workers
 import (
 	"os"
 	"strconv"
+	"sync/atomic"
+
+	http2 "github.com/dgrr/http2"
 
 	"h2v/rt"
 	"h2v/vf"
@@ -21,8 +24,26 @@ func init() {
 	}
 }
 
+// poisonHook is the default pool observer of every worker that does not install one of its own: a released object's
+// buffers are overwritten at once (quarantine by poisoning), so that a slice kept past the release shows up in the
+// integrity oracles instead of waiting for the pool to hand the object to somebody else.
+var poisoned atomic.Int64
+
+func poisonHook(kind string, obj any, acquire bool) bool {
+	if !acquire {
+		http2.VerifPoison(obj)
+		poisoned.Add(1)
+	}
+	return false
+}
+
+func init() { if os.Getenv("VERIF_NOPOISON") == "" { http2.VerifSetPoolHook(poisonHook) } }
+
 // perturbReport adds what the perturbation hook did to the evidence counters.
 func perturbReport(r *vf.Run) {
+	if n := poisoned.Load(); n > 0 {
+		r.Inc("pooled_objects_overwritten_on_release", n)
+	}
 	cases, sleeps, yields, sites, orders := rt.PerturbStats()
 	if cases == 0 {
 		return
